@@ -15,7 +15,17 @@ def entries(pid):
     p = os.path.join(VERIF, "selftest.json")
     if not os.path.exists(p):
         return []
-    return [e for e in json.load(open(p)) if e["property"] == pid]
+    ents = [e for e in json.load(open(p)) if e["property"] == pid]
+    # bound the run time: at most two registered changes per reporting rule, fourteen per property (hand-written mutants first)
+    ents.sort(key=lambda e: (not e["patch"].startswith("mutants/"), e["patch"]))
+    per_rule, out = {}, []
+    for e in ents:
+        k = e.get("expect", "")
+        if per_rule.get(k, 0) >= 2 or len(out) >= 14:
+            continue
+        per_rule[k] = per_rule.get(k, 0) + 1
+        out.append(e)
+    return out
 
 
 def run(pid):
